@@ -220,16 +220,15 @@ func (s *state) fill(n int) {
 				ex, c := int64(0), ""
 				if s.rng.Chance(30) {
 					ex, c = s.pickExpire()
-					class += "-" + c
+					if strings.HasSuffix(c, "expired") || c == "txheight-early" || c == "txheight-late" {
+						class = "group-with-expired-member"
+					}
 				}
 				exs = append(exs, ex)
 				ks = append(ks, lib.Pick(s.rng, s.norm))
 				ms = append(ms, mpenv.Transfer(lib.Pick(s.rng, s.norm).Addr, s.nonce, 0, ex, s.nonce))
 			}
 			_, gtx := mpenv.MakeGroup(ms, ks, rate*int64(m)*int64(1+s.rng.Intn(3)))
-			if len(class) > 40 {
-				class = "group-mixed"
-			}
 			s.add(gtx, ks[0], exs, class, true)
 			continue
 		}
